@@ -57,60 +57,60 @@ mod set_reach__topar;
 mod set_reach__srcred;
 mod bset__to;
 mod opt_lat__par;
-mod bool_lat__ser;
-mod lat_multi_improve__pari;
-mod lat_count_all__ser;
-mod lat_input__pari;
-mod lat_input__src2;
-mod count_paths__par;
-mod count_paths__src1;
-mod neg_basic__ser;
-mod neg_basic__src0;
-mod neg_basic__srcpar;
-mod agg_minmaxsum__par;
-mod agg_lattice__par;
-mod neg_rec_after__par;
-mod agg_empty__par;
-mod agg_empty_rel__topar;
-mod agg_pre_join__pari;
-mod disj__gen;
-mod disj__runpar;
-mod disj_nested__ser;
-mod pat_args__exp;
-mod multi_head_disj__par;
-mod neg_in_disj__exppar;
-mod mac_basic__gen;
-mod mac_basic__runpar;
-mod mac_capture__exppar;
-mod mac_gensym_disj__pari;
-mod mac_block__ser;
-mod mac_disj__exp;
-mod stress_rel__ser;
-mod rnd_core_02__pari;
-mod rnd_core_05__par;
-mod rnd_core_08__ser;
-mod rnd_core_10__pari;
-mod rnd_core_13__par;
-mod rnd_core_16__ser;
-mod rnd_core_18__pari;
-mod rnd_core_21__par;
-mod rnd_core_24__ser;
-mod rnd_core_26__pari;
-mod rnd_core_29__par;
-mod rnd_agg_02__ser;
-mod rnd_agg_04__pari;
-mod rnd_agg_07__par;
-mod rnd_agg_10__ser;
-mod rnd_agg_12__pari;
-mod rnd_agg_15__par;
-mod rnd_prec_02__par;
-mod rnd_prec_03__topar;
-mod rnd_prec_05__pari;
-mod rnd_prec_07__ser;
-mod rnd_prec_08__to;
-mod rnd_prea_03__ser;
-mod rnd_prea_05__pari;
-mod rnd_prea_08__par;
+mod lex_dual_lat__par;
+mod lat_two_keys__ser;
+mod lat_pre_join__ser;
+mod lat_val_bound__ser;
+mod lat_input__run;
+mod lat_input__redecl;
+mod count_paths__topar;
+mod count_paths__srcred;
+mod neg_basic__to;
+mod neg_basic__srcto;
+mod neg_basic__ren;
+mod agg_depth__par;
+mod agg_lattice__topar;
+mod neg_rec_after__exppar;
+mod agg_empty__topar;
+mod agg_const_args__pari;
+mod disj__pari;
+mod disj__src2;
+mod disj__perm2;
+mod disj_nested__exp;
+mod rep_expr__par;
+mod multi_head_disj__exppar;
+mod mac_basic__pari;
+mod mac_basic__src2;
+mod mac_basic__exppar;
+mod mac_nested__pari;
+mod mac_local_names__ser;
+mod mac_block__exp;
+mod stress_lat__par;
+mod rnd_core_01__ser;
+mod rnd_core_03__pari;
+mod rnd_core_06__par;
+mod rnd_core_09__ser;
+mod rnd_core_11__pari;
+mod rnd_core_14__par;
+mod rnd_core_17__ser;
+mod rnd_core_19__pari;
+mod rnd_core_22__par;
+mod rnd_core_25__ser;
+mod rnd_core_27__pari;
+mod rnd_core_30__par;
+mod rnd_agg_03__ser;
+mod rnd_agg_05__pari;
+mod rnd_agg_08__par;
+mod rnd_agg_11__ser;
+mod rnd_agg_13__pari;
+mod rnd_prec_01__par;
+mod rnd_prec_02__topar;
+mod rnd_prec_04__pari;
+mod rnd_prec_06__ser;
+mod rnd_prec_07__to;
+mod rnd_prea_01__par;
+mod rnd_prea_04__ser;
+mod rnd_prea_06__pari;
 
 fn lookup(name: &str) -> fn() -> Box<dyn Driven> {
    match name {
@@ -163,60 +163,60 @@ fn lookup(name: &str) -> fn() -> Box<dyn Driven> {
       "set_reach__srcred" => set_reach__srcred::make,
       "bset__to" => bset__to::make,
       "opt_lat__par" => opt_lat__par::make,
-      "bool_lat__ser" => bool_lat__ser::make,
-      "lat_multi_improve__pari" => lat_multi_improve__pari::make,
-      "lat_count_all__ser" => lat_count_all__ser::make,
-      "lat_input__pari" => lat_input__pari::make,
-      "lat_input__src2" => lat_input__src2::make,
-      "count_paths__par" => count_paths__par::make,
-      "count_paths__src1" => count_paths__src1::make,
-      "neg_basic__ser" => neg_basic__ser::make,
-      "neg_basic__src0" => neg_basic__src0::make,
-      "neg_basic__srcpar" => neg_basic__srcpar::make,
-      "agg_minmaxsum__par" => agg_minmaxsum__par::make,
-      "agg_lattice__par" => agg_lattice__par::make,
-      "neg_rec_after__par" => neg_rec_after__par::make,
-      "agg_empty__par" => agg_empty__par::make,
-      "agg_empty_rel__topar" => agg_empty_rel__topar::make,
-      "agg_pre_join__pari" => agg_pre_join__pari::make,
-      "disj__gen" => disj__gen::make,
-      "disj__runpar" => disj__runpar::make,
-      "disj_nested__ser" => disj_nested__ser::make,
-      "pat_args__exp" => pat_args__exp::make,
-      "multi_head_disj__par" => multi_head_disj__par::make,
-      "neg_in_disj__exppar" => neg_in_disj__exppar::make,
-      "mac_basic__gen" => mac_basic__gen::make,
-      "mac_basic__runpar" => mac_basic__runpar::make,
-      "mac_capture__exppar" => mac_capture__exppar::make,
-      "mac_gensym_disj__pari" => mac_gensym_disj__pari::make,
-      "mac_block__ser" => mac_block__ser::make,
-      "mac_disj__exp" => mac_disj__exp::make,
-      "stress_rel__ser" => stress_rel__ser::make,
-      "rnd_core_02__pari" => rnd_core_02__pari::make,
-      "rnd_core_05__par" => rnd_core_05__par::make,
-      "rnd_core_08__ser" => rnd_core_08__ser::make,
-      "rnd_core_10__pari" => rnd_core_10__pari::make,
-      "rnd_core_13__par" => rnd_core_13__par::make,
-      "rnd_core_16__ser" => rnd_core_16__ser::make,
-      "rnd_core_18__pari" => rnd_core_18__pari::make,
-      "rnd_core_21__par" => rnd_core_21__par::make,
-      "rnd_core_24__ser" => rnd_core_24__ser::make,
-      "rnd_core_26__pari" => rnd_core_26__pari::make,
-      "rnd_core_29__par" => rnd_core_29__par::make,
-      "rnd_agg_02__ser" => rnd_agg_02__ser::make,
-      "rnd_agg_04__pari" => rnd_agg_04__pari::make,
-      "rnd_agg_07__par" => rnd_agg_07__par::make,
-      "rnd_agg_10__ser" => rnd_agg_10__ser::make,
-      "rnd_agg_12__pari" => rnd_agg_12__pari::make,
-      "rnd_agg_15__par" => rnd_agg_15__par::make,
-      "rnd_prec_02__par" => rnd_prec_02__par::make,
-      "rnd_prec_03__topar" => rnd_prec_03__topar::make,
-      "rnd_prec_05__pari" => rnd_prec_05__pari::make,
-      "rnd_prec_07__ser" => rnd_prec_07__ser::make,
-      "rnd_prec_08__to" => rnd_prec_08__to::make,
-      "rnd_prea_03__ser" => rnd_prea_03__ser::make,
-      "rnd_prea_05__pari" => rnd_prea_05__pari::make,
-      "rnd_prea_08__par" => rnd_prea_08__par::make,
+      "lex_dual_lat__par" => lex_dual_lat__par::make,
+      "lat_two_keys__ser" => lat_two_keys__ser::make,
+      "lat_pre_join__ser" => lat_pre_join__ser::make,
+      "lat_val_bound__ser" => lat_val_bound__ser::make,
+      "lat_input__run" => lat_input__run::make,
+      "lat_input__redecl" => lat_input__redecl::make,
+      "count_paths__topar" => count_paths__topar::make,
+      "count_paths__srcred" => count_paths__srcred::make,
+      "neg_basic__to" => neg_basic__to::make,
+      "neg_basic__srcto" => neg_basic__srcto::make,
+      "neg_basic__ren" => neg_basic__ren::make,
+      "agg_depth__par" => agg_depth__par::make,
+      "agg_lattice__topar" => agg_lattice__topar::make,
+      "neg_rec_after__exppar" => neg_rec_after__exppar::make,
+      "agg_empty__topar" => agg_empty__topar::make,
+      "agg_const_args__pari" => agg_const_args__pari::make,
+      "disj__pari" => disj__pari::make,
+      "disj__src2" => disj__src2::make,
+      "disj__perm2" => disj__perm2::make,
+      "disj_nested__exp" => disj_nested__exp::make,
+      "rep_expr__par" => rep_expr__par::make,
+      "multi_head_disj__exppar" => multi_head_disj__exppar::make,
+      "mac_basic__pari" => mac_basic__pari::make,
+      "mac_basic__src2" => mac_basic__src2::make,
+      "mac_basic__exppar" => mac_basic__exppar::make,
+      "mac_nested__pari" => mac_nested__pari::make,
+      "mac_local_names__ser" => mac_local_names__ser::make,
+      "mac_block__exp" => mac_block__exp::make,
+      "stress_lat__par" => stress_lat__par::make,
+      "rnd_core_01__ser" => rnd_core_01__ser::make,
+      "rnd_core_03__pari" => rnd_core_03__pari::make,
+      "rnd_core_06__par" => rnd_core_06__par::make,
+      "rnd_core_09__ser" => rnd_core_09__ser::make,
+      "rnd_core_11__pari" => rnd_core_11__pari::make,
+      "rnd_core_14__par" => rnd_core_14__par::make,
+      "rnd_core_17__ser" => rnd_core_17__ser::make,
+      "rnd_core_19__pari" => rnd_core_19__pari::make,
+      "rnd_core_22__par" => rnd_core_22__par::make,
+      "rnd_core_25__ser" => rnd_core_25__ser::make,
+      "rnd_core_27__pari" => rnd_core_27__pari::make,
+      "rnd_core_30__par" => rnd_core_30__par::make,
+      "rnd_agg_03__ser" => rnd_agg_03__ser::make,
+      "rnd_agg_05__pari" => rnd_agg_05__pari::make,
+      "rnd_agg_08__par" => rnd_agg_08__par::make,
+      "rnd_agg_11__ser" => rnd_agg_11__ser::make,
+      "rnd_agg_13__pari" => rnd_agg_13__pari::make,
+      "rnd_prec_01__par" => rnd_prec_01__par::make,
+      "rnd_prec_02__topar" => rnd_prec_02__topar::make,
+      "rnd_prec_04__pari" => rnd_prec_04__pari::make,
+      "rnd_prec_06__ser" => rnd_prec_06__ser::make,
+      "rnd_prec_07__to" => rnd_prec_07__to::make,
+      "rnd_prea_01__par" => rnd_prea_01__par::make,
+      "rnd_prea_04__ser" => rnd_prea_04__ser::make,
+      "rnd_prea_06__pari" => rnd_prea_06__pari::make,
       _ => panic!("no such program variant in this shard: {}", name),
    }
 }
